@@ -19,7 +19,7 @@ from . import verify, solve
 ROOT = os.path.dirname(os.path.dirname(os.path.abspath(__file__)))
 NATIVE_PY = "/venv/bin/python"
 
-CONTRACT_MODULES = ["numeric"]
+CONTRACT_MODULES = ["numeric", "matchers"]
 
 TRUSTED_BASE = [
     "T1 pyvc: the ast->SMT encoding of the Python subset (DESIGN 2.3); mitigated by canaries on every run",
@@ -129,7 +129,12 @@ def make_replay(prop, unit, rec, R):
     snippet = None
     native = None
     reproduced = False
-    if c is not None and c.replay is not None and rec.get("model"):
+    if rec.get("native_snippet"):
+        snippet = rec["native_snippet"]
+        code, out = native_run(snippet, timeout=300)
+        native = {"exit": code, "output": out}
+        reproduced = code == 1
+    elif c is not None and c.replay is not None and rec.get("model"):
         try:
             snippet = c.replay(rec["model"], unit, rec)
         except Exception as e:
@@ -200,11 +205,26 @@ def summarise(prop, tier, R, results, bounded, wall, write=True, verbose=False):
     solver_s = 0.0
     notes = set()
     covers = 0
+    fallback_runs = []
     for r in results:
         if r["status"] == "checker-error":
             errors.append((r["label"], r["error"]))
             continue
         if r["status"] in ("missing", "outside-subset"):
+            c0 = R.contracts.get(r["label"].split("{")[0])
+            fb = getattr(c0, "native_fallback", None) if c0 is not None else None
+            if r["status"] == "outside-subset" and fb:
+                # bounded stand-in (class B) for a function that left the verified subset
+                code_fb, out_fb = native_run(fb, timeout=300)
+                fallback_runs.append({"unit": r["label"], "exit": code_fb, "reason": r["error"]})
+                if code_fb == 1:
+                    rec = {"id": "%s/bounded-fallback[native]" % r["label"], "kind": "bounded-fallback", "result": "failed",
+                           "solver": "native bounded stand-in", "model": None, "line": None, "seconds": 0.0,
+                           "note": "function left the verified subset (%s); bounded native check of its contract failed: %s"
+                                   % (r["error"], out_fb[-400:]), "native_snippet": fb}
+                    n_obl += 1
+                    violations.append((r, rec))
+                    continue
             undecided.append((r["label"], r["error"]))
             continue
         if r.get("cover") == "sat":
@@ -338,6 +358,7 @@ def summarise(prop, tier, R, results, bounded, wall, write=True, verbose=False):
                         for b in bounded],
             "known_findings_printed": kf_printed,
             "undecided_units": [u[0] for u in undecided],
+            "bounded_fallback_runs": fallback_runs,
             "samples": samples,
         },
         "assumptions": assumptions,
